@@ -124,13 +124,22 @@ pub fn oracle_c10_dev(op: &str, outs: &[String]) -> String {
     let hd: Vec<&str> = op.split(';').next().unwrap_or("").split_whitespace().collect();
     let (lead, buffer, class_c, txms): (u64, u64, bool, u64) = (hd[5].parse().unwrap_or(0), hd[6].parse().unwrap_or(0), hd[7] == "1", hd[8].parse().unwrap_or(0));
     let evs: Vec<&str> = op.split(';').skip(1).map(|s| s.trim()).collect();
-    let mut rx1d: u64 = 1000;
+    // RX1 delay in force: known from the last snapshot, unknown after an accepted downlink or a
+    // join (either may change it) until the next snapshot
+    let mut rx1d: Option<u64> = Some(1000);
+    let mut rx1d_next: Option<Option<u64>> = None;
     for (ev, o) in evs.iter().zip(outs.iter()) {
         if o == "PANIC" || o == "HANG" || o.contains("STUCK") {
             return format!("FAIL:{}", o.split_whitespace().next().unwrap_or("?"));
         }
+        if let Some(nx) = rx1d_next.take() {
+            rx1d = nx;
+        }
         if let Some(s) = parse_snap(o) {
-            rx1d = s.rx1d as u64;
+            rx1d = Some(s.rx1d as u64);
+        } else if o.contains("DownlinkReceived(") || o.contains("JoinSuccess") {
+            // this event's own windows were still scheduled with the old delay
+            rx1d_next = Some(None);
         }
         if !o.starts_with("calls=tx(") {
             continue;
@@ -138,15 +147,22 @@ pub fn oracle_c10_dev(op: &str, outs: &[String]) -> String {
         let join = ev.starts_with("ajoin");
         let calls: Vec<&str> = o["calls=".len()..].split(" => ").next().unwrap_or("").split(';').collect();
         let ats: Vec<u64> = calls.iter().filter_map(|c| c.strip_prefix("at(").and_then(|x| x.trim_end_matches(')').parse().ok())).collect();
-        let (d1, d2) = if join { (5000, 6000) } else { (rx1d, rx1d + 1000) };
-        if let Some(a) = ats.first() {
-            if *a != d1 + txms - lead {
-                return format!("FAIL:rx1-timer-{}-expected-{}", a, d1 + txms - lead);
+        let delays = if join { Some((5000, 6000)) } else { rx1d.map(|d| (d, d + 1000)) };
+        if let Some((d1, d2)) = delays {
+            if let Some(a) = ats.first() {
+                if *a != d1 + txms - lead {
+                    return format!("FAIL:rx1-timer-{}-expected-{}", a, d1 + txms - lead);
+                }
             }
-        }
-        if let Some(a) = ats.get(1) {
-            if *a != d2 + txms - lead {
-                return format!("FAIL:rx2-timer-{}-expected-{}", a, d2 + txms - lead);
+            if let Some(a) = ats.get(1) {
+                if *a != d2 + txms - lead {
+                    return format!("FAIL:rx2-timer-{}-expected-{}", a, d2 + txms - lead);
+                }
+            }
+        } else if let (Some(a), Some(b)) = (ats.first(), ats.get(1)) {
+            // delay unknown: RX2 still opens exactly one second after RX1
+            if *b != *a + 1000 {
+                return format!("FAIL:rx2-timer-{}-not-one-second-after-rx1-{}", b, a);
             }
         }
         // single-shot windows carry the buffer; continuous ones (Class C) must equal each other = RX2 parameters
@@ -329,6 +345,10 @@ impl NHist {
                         } else if o.contains("TimeoutRequest(") || o.contains("Err(Radio)") && o.contains("txreq(") || o.contains("UnexpectedRadioResponse") {
                             self.sending = false;
                         }
+                        // the configuration may have changed: record it for the timing oracle
+                        if (o.contains("DownlinkReceived(") || o.contains("JoinSuccess")) && e != "snap" {
+                            return self.ev("snap");
+                        }
                     }
                     _ => self.dead = true,
                 }
@@ -488,7 +508,9 @@ pub fn oracle_c10_nb(op: &str, outs: &[String]) -> String {
     let hd: Vec<&str> = op.split(';').next().unwrap_or("").split_whitespace().collect();
     let (offset, duration): (i64, i64) = (hd[5].parse().unwrap_or(0), hd[6].parse().unwrap_or(0));
     let evs: Vec<&str> = op.split(';').skip(1).map(|s| s.trim()).collect();
-    let mut rx1d: i64 = 1000;
+    // RX1 delay in force, known from the last snapshot; unknown (None) between an accepted
+    // downlink / join (which may change it) and the next snapshot
+    let mut rx1d: Option<i64> = Some(1000);
     let mut join = false;
     let mut expect_open: Option<i64> = None;
     for (ev, o) in evs.iter().zip(outs.iter()) {
@@ -496,7 +518,9 @@ pub fn oracle_c10_nb(op: &str, outs: &[String]) -> String {
             return format!("FAIL:{}", o);
         }
         if let Some(s) = parse_snap(o) {
-            rx1d = s.rx1d as i64;
+            rx1d = Some(s.rx1d as i64);
+        } else if o.contains("DownlinkReceived(") || o.contains("JoinSuccess") {
+            rx1d = None;
         }
         if ev.starts_with("njoin") && o.contains("txreq(") {
             join = true;
@@ -514,9 +538,11 @@ pub fn oracle_c10_nb(op: &str, outs: &[String]) -> String {
         };
         if let (Some(ts), Some(t)) = (ts_now, tr) {
             if o.contains("phy") || o.contains("txreq(") {
-                let d1 = if join { 5000 } else { rx1d };
-                if t != d1 + ts + offset {
-                    return format!("FAIL:rx1-opens-at-{}-expected-{}", t, d1 + ts + offset);
+                let d1 = if join { Some(5000) } else { rx1d };
+                if let Some(d1) = d1 {
+                    if t != d1 + ts + offset {
+                        return format!("FAIL:rx1-opens-at-{}-expected-{}", t, d1 + ts + offset);
+                    }
                 }
                 expect_open = Some(t);
             }
